@@ -12,16 +12,18 @@
      fd_find_fixed_distance_string             1658-1684   findFixedDistanceStringLeftToRight
      fd_find_fixed_distance_sets               1686-1714   findFixedDistanceSetsLeftToRight
      fd_find_literal_after_loop                1716-1742   findLiteralAfterLoopLeftToRight
-     fd_find_landmark_chain                    1744-1783   findRequiredLandmarkChainLeftToRight
-     fd_find_next_landmark                     1791-1800   findNextRequiredLandmarkRunes
-     fd_landmark_alt_match                     1802-1846   requiredLandmarkAlternativeMatch
-     fd_index_of_literal_after_loop            1848-1875   indexOfLiteralAfterLoop
-     fd_is_ascii_runes                         1877-1884   isASCIIRunes
-     fd_index_of_set                           1886-1902   indexOfSet
-     fd_sets_match_at                          1904-1912   fixedDistanceSetsMatchAt
-     fd_char_in_fds                            1914-1930   charInFixedDistanceSet
-     fd_latest_possible_start                  1932-1941   latestPossibleStart
-     fd_has_required_length_at                 1943-1945   hasRequiredLengthAt
+     fd_find_landmark_chain                    1744-1790   findRequiredLandmarkChainLeftToRight
+     fd_landmark_min_width                     1793-1808   requiredLandmarkMinWidth
+     fd_landmark_leading_ws                    1811-1818   requiredLandmarkLeadingWhitespace
+     fd_find_next_landmark                     1826-1835   findNextRequiredLandmarkRunes
+     fd_landmark_alt_match                     1837-1892   requiredLandmarkAlternativeMatch
+     fd_index_of_literal_after_loop            1894-1921   indexOfLiteralAfterLoop
+     fd_is_ascii_runes                         1923-1930   isASCIIRunes
+     fd_index_of_set                           1932-1948   indexOfSet
+     fd_sets_match_at                          1950-1958   fixedDistanceSetsMatchAt
+     fd_char_in_fds                            1960-1976   charInFixedDistanceSet
+     fd_latest_possible_start                  1978-1987   latestPossibleStart
+     fd_has_required_length_at                 1989-1991   hasRequiredLengthAt
      fd_first_char_loop                        1438-1465   the first-character loop of findFirstCharDefault
      fd_ffc_nobm                               1432-1465   findFirstCharDefault below the Boyer-Moore branch
      fd_find_first_char_default                1386-1466   all of findFirstCharDefault (anchor part = Scan.ffc_default)
@@ -156,7 +158,7 @@ Definition fd_slice (i j : Z) : res (list Z) :=
 Definition fd_rune_at (i : Z) : res Z :=
   match znth text i with Some c => Ok c | None => Crash 12 end.
 
-(* runner.go:1932 latestPossibleStart, 1943 hasRequiredLengthAt (r.code and FindOptimizations are
+(* runner.go:1978 latestPossibleStart, 1989 hasRequiredLengthAt (r.code and FindOptimizations are
    non-nil whenever an optimized finder runs) *)
 Definition fd_latest_possible_start : Z := if minreq <=? 0 then fd_n else fd_n - minreq.
 Definition fd_has_required_length_at (start : Z) : bool :=
@@ -170,7 +172,7 @@ Definition fd_find_trailing_fixed_length_end (p fixed_length : Z) : res (bool * 
   if (start <? p) || (start <? 0) then fd_far                        (* 1533-1536 *)
   else Ok (true, start).                                             (* 1537-1538 *)
 
-(* ---- runner.go:1877 isASCIIRunes ---- *)
+(* ---- runner.go:1923 isASCIIRunes ---- *)
 Definition fd_is_ascii_runes (l : list Z) : bool := forallb (fun ch => negb (127 <? ch)) l.
 
 (* ---- runner.go:1541 findLeadingStringLeftToRight ---- *)
@@ -329,44 +331,44 @@ Record fdset := {
   fs_distance : Z                (* Distance *)
 }.
 
-(* ---- runner.go:1914 charInFixedDistanceSet ---- *)
+(* ---- runner.go:1960 charInFixedDistanceSet ---- *)
 Definition fd_char_in_fds (s : fdset) (ch : Z) : bool :=
   match fs_chars s with
-  | _ :: _ =>                                                        (* 1915-1921 *)
+  | _ :: _ =>                                                        (* 1961-1967 *)
       let found := zmem ch (fs_chars s) in
       if fs_negated s then negb found else found
   | [] =>
       match fs_range s with
-      | Some (first, last) =>                                        (* 1922-1928 *)
+      | Some (first, last) =>                                        (* 1968-1974 *)
           let found := (first <=? ch) && (ch <=? last) in
           if fs_negated s then negb found else found
-      | None =>                                                      (* 1929 *)
+      | None =>                                                      (* 1975 *)
           match fs_set s with Some id => set_in id ch | None => false end
       end
   end.
 
-(* ---- runner.go:1886 indexOfSet ---- *)
+(* ---- runner.go:1932 indexOfSet ---- *)
 Definition fd_index_of_set (chars : list Z) (s : fdset) : Z :=
   match fs_chars s with
   | _ :: _ =>
-      if negb (fs_negated s) then fd_index_of_any chars (fs_chars s)           (* 1887-1889 *)
-      else fd_index_of_any_except chars (fs_chars s)                           (* 1890-1892 *)
+      if negb (fs_negated s) then fd_index_of_any chars (fs_chars s)           (* 1933-1935 *)
+      else fd_index_of_any_except chars (fs_chars s)                           (* 1936-1938 *)
   | [] =>
       match fs_range s with
-      | Some (first, last) =>                                                  (* 1893-1898 *)
+      | Some (first, last) =>                                                  (* 1939-1944 *)
           if fs_negated s then fd_index_of_any_except_in_range chars first last
           else fd_index_of_any_in_range chars first last
-      | None => fd_index_func chars (fd_char_in_fds s)                         (* 1899-1901 *)
+      | None => fd_index_func chars (fd_char_in_fds s)                         (* 1945-1947 *)
       end
   end.
 
-(* ---- runner.go:1904 fixedDistanceSetsMatchAt ---- *)
+(* ---- runner.go:1950 fixedDistanceSetsMatchAt ---- *)
 Fixpoint fd_sets_match_at (sets : list fdset) (start : Z) : bool :=
   match sets with
   | [] => true
   | s :: rest =>
-      let index := start + fs_distance s in                          (* 1906 *)
-      if (index <? 0) || (fd_n <=? index) then false                 (* 1907 *)
+      let index := start + fs_distance s in                          (* 1952 *)
+      if (index <? 0) || (fd_n <=? index) then false                 (* 1953 *)
       else if negb (fd_char_in_fds s (nth (Z.to_nat index) text 0)) then false
       else fd_sets_match_at rest start
   end.
@@ -409,29 +411,29 @@ Record fdlal := {
   lal_loop_set : option Z        (* LoopNode.Set; None when LoopNode or its Set is nil *)
 }.
 
-(* ---- runner.go:1848 indexOfLiteralAfterLoop ---- *)
+(* ---- runner.go:1894 indexOfLiteralAfterLoop ---- *)
 Definition fd_index_of_literal_after_loop (l : fdlal) (search_start : Z) : res Z :=
   do sl <- fd_slice_from search_start ;
   match lal_string l with
-  | _ :: _ =>                                                        (* 1850-1864 *)
+  | _ :: _ =>                                                        (* 1896-1910 *)
       do offset <- (if lal_string_ic l then
-                      (* 1854 isASCIIString(literal.String): every byte < 0x80 iff every rune < 0x80 *)
+                      (* 1900 isASCIIString(literal.String): every byte < 0x80 iff every rune < 0x80 *)
                       if fd_is_ascii_runes (lal_string l) then fd_index_of_ic_ascii sl (lal_string l)
                       else fd_index_of_ic sl (lal_string l)
                     else fd_index_of sl (lal_string l)) ;
       if 0 <=? offset then Ok (search_start + offset) else Ok (-1)
   | [] =>
       match lal_chars l with
-      | _ :: _ =>                                                    (* 1865-1868 *)
+      | _ :: _ =>                                                    (* 1911-1914 *)
           let offset := fd_index_of_any sl (lal_chars l) in
           if 0 <=? offset then Ok (search_start + offset) else Ok (-1)
-      | [] =>                                                        (* 1869-1872 *)
+      | [] =>                                                        (* 1915-1918 *)
           let offset := fd_index_of_any1 sl (lal_char l) in
           if 0 <=? offset then Ok (search_start + offset) else Ok (-1)
       end
   end.
 
-(* "for start > low && set.CharIn(r.Runtext[start-1]) { start-- }" (1730-1732, 1770-1772, 1836-1838);
+(* "for start > low && set.CharIn(r.Runtext[start-1]) { start-- }" (1730-1732, 1774-1779, 1882-1884);
    [k] bounds the number of steps (start - low suffices) *)
 Fixpoint fd_walk_back (k : nat) (f : Z -> bool) (low start : Z) : Z :=
   match k with
@@ -485,7 +487,7 @@ Record fdlm := { lm_start : Z; lm_core_start : Z; lm_end : Z }.
 Definition fd_opt_set_in (s : option Z) (c : Z) : bool :=
   match s with Some id => set_in id c | None => false end.
 
-(* 1820-1822: for end < endAt && end-start < maxRepeat && alt.Set.CharIn(input[end]) { end++ } *)
+(* 1854-1856: for end < endAt && end-start < maxRepeat && alt.Set.CharIn(input[end]) { end++ } *)
 Fixpoint fd_run_fwd (k : nat) (f : Z -> bool) (start end_at max_repeat e : Z) : Z :=
   match k with
   | O => e
@@ -493,7 +495,7 @@ Fixpoint fd_run_fwd (k : nat) (f : Z -> bool) (start end_at max_repeat e : Z) : 
             then fd_run_fwd k' f start end_at max_repeat (e + 1) else e
   end.
 
-(* 1872-1875: for e := shortest; e <= end && e < endAt && !found; e++ { found = ws.CharIn(input[e]) } *)
+(* 1871-1874: for e := shortest; e <= end && e < endAt && !found; e++ { found = ws.CharIn(input[e]) } *)
 Fixpoint fd_ws_after (k : nat) (f : Z -> bool) (e_max end_at e : Z) : bool :=
   match k with
   | O => false
@@ -571,15 +573,15 @@ Fixpoint fd_first_alt_at (i end_at : Z) (alts : list fdalt) : res (option fdlm) 
       match m with Some _ => Ok m | None => fd_first_alt_at i end_at rest end
   end.
 
-(* ---- runner.go:1791 findNextRequiredLandmarkRunes; [k] bounds the number of positions tried ---- *)
+(* ---- runner.go:1826 findNextRequiredLandmarkRunes; [k] bounds the number of positions tried ---- *)
 Fixpoint fd_find_next_landmark (k : nat) (i end_at : Z) (alts : list fdalt) : res (option fdlm) :=
   match k with
   | O => Ok None
   | S k' =>
-      if negb (i <? end_at) then Ok None                             (* 1792 loop test; 1799 *)
+      if negb (i <? end_at) then Ok None                             (* 1827 loop test; 1834 *)
       else do m <- fd_first_alt_at i end_at alts ;
            match m with
-           | Some _ => Ok m                                          (* 1794-1796 *)
+           | Some _ => Ok m                                          (* 1829-1831 *)
            | None => fd_find_next_landmark k' (i + 1) end_at alts
            end
   end.
